@@ -188,6 +188,21 @@ pub fn extract_prefix(key: &[u8]) -> [u8; 4] {
     prefix
 }
 
+/// The header fields every accessor relies on come from disk: the slot array must lie inside the
+/// page and the free space must lie between the slot array and the end of the page.
+fn check_leaf_layout(header: &PageHeader) -> Result<()> {
+    let slots_end = LEAF_CONTENT_START + header.cell_count() as usize * SLOT_SIZE;
+    let (free_start, free_end) = (header.free_start() as usize, header.free_end() as usize);
+    ensure!(
+        slots_end <= free_start && free_start <= free_end && free_end <= PAGE_SIZE,
+        "corrupt leaf page: cell_count={}, free_start={}, free_end={}",
+        header.cell_count(),
+        free_start,
+        free_end
+    );
+    Ok(())
+}
+
 #[derive(Debug, Clone, Copy, PartialEq, Eq)]
 pub enum SearchResult {
     Found(usize),
@@ -217,6 +232,7 @@ impl<'a> LeafNode<'a> {
             "expected BTreeLeaf page, got {:?}",
             header.page_type()
         );
+        check_leaf_layout(header)?;
         Ok(Self { data })
     }
 
@@ -277,7 +293,7 @@ impl<'a> LeafNode<'a> {
         let value_data_start = value_start + varint_size;
 
         ensure!(
-            value_data_start + value_len as usize <= PAGE_SIZE,
+            value_data_start <= PAGE_SIZE && value_len <= (PAGE_SIZE - value_data_start) as u64,
             "value extends beyond page boundary"
         );
 
@@ -356,6 +372,7 @@ impl<'a> LeafNodeMut<'a> {
             "expected BTreeLeaf page, got {:?}",
             header.page_type()
         );
+        check_leaf_layout(header)?;
         Ok(Self { data })
     }
 
@@ -443,7 +460,7 @@ impl<'a> LeafNodeMut<'a> {
         let value_data_start = value_start + varint_size;
 
         ensure!(
-            value_data_start + value_len as usize <= PAGE_SIZE,
+            value_data_start <= PAGE_SIZE && value_len <= (PAGE_SIZE - value_data_start) as u64,
             "value extends beyond page boundary"
         );
 
